@@ -286,8 +286,11 @@ class Gen:
             add("abs", lambda g, sc, d: C(r.choice(("abs", "round", "ceil", "floor")), g("num")))
             add("size", lambda g, sc, d: C("size", g(r.choice(("arr:num", "obj", "str", "arr:str")))))
             add("sum", lambda g, sc, d: C("sum", g("arr:num")))
-            add("parse_time", lambda g, sc, d: C(r.choice(("parse_time", "parse_time_with_zone")), g("str") if r.random() < 0.3 else
+            add("parse_time", lambda g, sc, d: C("parse_time", g("str") if r.random() < 0.2 else
                                                   C("format_time", g("epoch"), ("lit", "%Y-%m-%d %H:%M:%S")), ("lit", "%Y-%m-%d %H:%M:%S")))
+            add("parse_time_with_zone", lambda g, sc, d: C("parse_time_with_zone", g("str") if r.random() < 0.2 else
+                                                           C("concat", C("format_time", g("epoch"), ("lit", "%F %T")), ("lit", r.choice((" +0000", " +0530", " -0800")))),
+                                                           ("lit", "%F %T %z")))
         if kind in ("str", "any"):
             add("concat", lambda g, sc, d: C("concat", *[g("str") for _ in range(r.choice((2, 2, 3)))]))
             add("head", lambda g, sc, d: C(r.choice(("head", "tail")), g("str"), g("int")))
